@@ -263,7 +263,7 @@ def run(ctx):
              "exceeds the 15 bytes comm can hold", floor=5)
     nre = 0
     for fi in repo.all_funcs(pm):
-        for pat, flags, meth, call in _status_regex_uses(fi):
+        for pat, flags, meth, call in _status_regex_uses(fi, repo, pm):
             nre += 1
             key = f"{fi.qual}:{pat.decode() if isinstance(pat, bytes) else pat}"
             anchored, width = _regex_facts(pat, flags)
@@ -542,7 +542,7 @@ def _check_create_time(ctx, fi, t, I, repo):
 RE_METHODS = ("search", "findall", "finditer", "match", "fullmatch", "split", "sub", "subn")
 
 
-def _status_regex_uses(fi):
+def _status_regex_uses(fi, repo=None, module=None):
     """(pattern literal, flags, method, call node) for every regex applied, in
     this function, to the content of <pid>/status - whatever re method is used.
     The subject is status content if it is (a name assigned from) a call of
@@ -603,6 +603,41 @@ def _status_regex_uses(fi):
         elif compiled(recv) and n.args and is_status(n.args[0]):
             pat, fl = compiled(recv)
             out.append((pat, _flag_ast(fl), n.func.attr, n))
+        elif isinstance(recv, ast.Name) and recv.id in {p_.arg for p_ in pos} and n.args \
+                and repo is not None:
+            # the pattern is a PARAMETER of this helper: every compiled pattern its
+            # callers in the module pass for it (their default-argument regexes,
+            # locals, or module-level patterns)
+            subj = n.args[1] if n.func.attr in ("sub", "subn") and len(n.args) > 1 else n.args[0]
+            if not is_status(subj):
+                continue
+            pidx = [p_.arg for p_ in pos].index(recv.id)
+            is_meth = bool(pos) and pos[0].arg in ("self", "cls")
+            for g in repo.all_funcs(module):
+                gpats = {}
+                ga = g.node.args
+                gpos = ga.posonlyargs + ga.args
+                for p_, d in list(zip(gpos[len(gpos) - len(ga.defaults):], ga.defaults)):
+                    if compiled(d):
+                        gpats[p_.arg] = compiled(d)
+                for st_ in ast.walk(g.node):
+                    if isinstance(st_, ast.Assign) and compiled(st_.value):
+                        for t_ in st_.targets:
+                            if isinstance(t_, ast.Name):
+                                gpats[t_.id] = compiled(st_.value)
+                for nm_, vs_ in repo.mod(module).assigns.items():
+                    if len(vs_) == 1 and compiled(vs_[0]):
+                        gpats.setdefault(nm_, compiled(vs_[0]))
+                for c_ in ast.walk(g.node):
+                    if isinstance(c_, ast.Call) and (dotted(c_.func) or "").split(".")[-1] == fi.name:
+                        ai = pidx - (1 if is_meth and "." in (dotted(c_.func) or "") else 0)
+                        arg = c_.args[ai] if 0 <= ai < len(c_.args) else next(
+                            (k.value for k in c_.keywords if k.arg == recv.id), None)
+                        got = compiled(arg) if arg is not None else None
+                        if got is None and isinstance(arg, ast.Name) and arg.id in gpats:
+                            got = gpats[arg.id]
+                        if got:
+                            out.append((got[0], _flag_ast(got[1]), n.func.attr, n))
     return out
 
 
